@@ -10,7 +10,7 @@ MANIFEST_ENTRY = dict(engine="Chain", design="§4 C20",
 
 def run(c):
     quick = c.tier == "quick"
-    chainrun.run_family(c, "C20", "C20", nscen=24 if quick else 200, maxlen=17 if quick else 31,
+    chainrun.run_family(c, "C20", "C20", nscen=24 if quick else 600, maxlen=17 if quick else 31,
                         followers=1)
 
 
